@@ -29,7 +29,7 @@ func (c01) Meta() fw.Meta {
 			"raw slot state is read through the live handle (GetAllRawUnsortedPoints) and cross-checked against the harness' own parse of the file bytes at every sync/reopen",
 			"layouts: 1-4 archives, steps 1..3600*60, rings of 1..1500 slots (thorough: a few files > 4 MiB)",
 		},
-		Obligations: []string{"stale_lap_nan_reads", "ring_end_crossing_reads", "page_straddle_slot_reads", "whole_ring_reads", "ring1", "ring2", "negative_distance_reads", "reopen_then_read", "jump_longer_than_retention", "nan_payload_roundtrip", "distance_beyond_31_bits_reads", "file_over_1024_pages", "newer_lap_nan_reads", "clock_stepped_back", "reads_after_waiting_for_writer"},
+		Obligations: []string{"stale_lap_nan_reads", "ring_end_crossing_reads", "page_straddle_slot_reads", "whole_ring_reads", "ring1", "ring2", "negative_distance_reads", "reopen_then_read", "jump_longer_than_retention", "nan_payload_roundtrip", "distance_beyond_31_bits_reads", "file_over_1024_pages", "newer_lap_nan_reads", "clock_stepped_back", "reads_after_waiting_for_writer", "coarser_archives_checked_after_write"},
 	}
 }
 
@@ -137,6 +137,7 @@ func (c01) Run(c *fw.Ctx) {
 		nops = 6
 	}
 	var ops []Op
+	nanWritten := false // max/min of NaN is not specified: their coarser archives are not judged once a NaN was written
 	nontrivial := false
 	afterReopen := false
 	for step := 0; step < nops && !c.Violated(); step++ {
@@ -153,6 +154,7 @@ func (c01) Run(c *fw.Ctx) {
 		ops = append(ops, op)
 		pre := s.raw
 		afterReopen = false
+		_ = nanWritten
 		switch op.Kind {
 		case "advance":
 			for _, a := range l.Archs {
@@ -241,6 +243,27 @@ func (c01) Run(c *fw.Ctx) {
 		}
 		s.raw = post
 
+		// ---- the coarser archives after a write: the aggregates the downsampling rule prescribes (C02's oracle; here over
+		// C01's histories: clock jumps and steps back, reopens, late points into named archives)
+		if op.Kind == "single" || op.Kind == "batch" {
+			vals := op.Pts
+			if op.Kind == "single" {
+				vals = []model.PtBits{op.Pt}
+			}
+			for _, p := range vals {
+				if v := math.Float64frombits(p.Bits); v != v {
+					nanWritten = true
+				}
+			}
+			if !(nanWritten && (l.Method == 4 || l.Method == 5)) {
+				if dc, ai, d, want, got, found := propagationMismatch(l, pre, post, op, s.now); found {
+					c.Violationf("coarser-archive-not-the-aggregate", fw.J{"layout": l, "ops": ops, "now": s.now, "archive": ai, "slot": d, "want": want, "got": got, "before": pre[ai][d]},
+						"after %s (archive %d) archive %d slot %d holds %v, the aggregate of the finer archive demands %v (was %v)", op.Kind, op.Arch, ai, d, got, want, pre[ai][d])
+				} else if !dc {
+					c.Count("coarser_archives_checked_after_write", 1)
+				}
+			}
+		}
 		// ---- write-side oracle
 		switch op.Kind {
 		case "advance", "sync", "reopen":
